@@ -38,6 +38,9 @@ var errCustom = errors.New("verif: scripted source failure")
 // attributed by goroutine id at the end instead of being drained per call.
 var concMode bool
 
+// concSlab is the buffer shared by all workers of a concurrent run (plan.Conc.Slab).
+var concSlab []byte
+
 var base = time.Now()
 
 func now() int64 { return int64(time.Since(base)) }
@@ -261,7 +264,10 @@ func (st *state) exec(op *plan.Op, shared *scripted) (res plan.Res) {
 		} else {
 			ent = op.Entropy()
 		}
-		if op.Arena && ent != nil && op.Buf == 0 {
+		if op.SlabOff > 0 && concSlab != nil {
+			// a window of the shared caller-owned buffer; it was filled before the barrier
+			ent = concSlab[op.SlabOff-1 : op.SlabOff-1+len(ent)]
+		} else if op.Arena && ent != nil && op.Buf == 0 {
 			// the caller recycles one buffer per length: new content, same backing array
 			a, ok := st.arena[len(ent)]
 			if !ok {
@@ -560,6 +566,16 @@ func runConc(path string) {
 	if earlyrand.Wrapper != nil {
 		earlyrand.TrackG = true // set before the workers exist
 		concMode = true
+	}
+	if c.Slab > 0 {
+		concSlab = make([]byte, c.Slab)
+		for w := range c.Workers {
+			for i := range c.Workers[w] {
+				if op := &c.Workers[w][i]; op.SlabOff > 0 {
+					copy(concSlab[op.SlabOff-1:], op.Entropy())
+				}
+			}
+		}
 	}
 	start := make(chan struct{})
 	results := make([][]plan.Res, len(c.Workers))
